@@ -857,6 +857,77 @@ def r03o(rep, F):
     rep.require_count('R03o', 'helper members reset', n, 60)
 
 
+class RejectClient(paths.Client):
+    """after a rejection loop do { draw X; V = valid(X) } while (!V && !ptc): every later use of X happens with V known true"""
+    track = 'vars'
+    fork_bools = True
+
+    def __init__(self, vkey, uses, inside):
+        self.vkey, self.uses, self.inside = vkey, uses, inside
+        self.relevant = {vkey}
+        self.relevant_preds = set()
+        self.bad = {}
+        self.seen = set()
+
+    def init(self, fn):
+        return False
+
+    def on_node(self, fn, node, auto, ctx):
+        nid = node.get('id')
+        if nid in self.inside:
+            return True          # this path went through the rejection loop
+        if auto and nid in self.uses:
+            self.seen.add(nid)
+            if ctx.val(('v', self.vkey)) is not True and nid not in self.bad:
+                self.bad[nid] = ctx.path()
+        return auto
+
+
+def r03p(rep, F):
+    rep.rule('R03p', 'interrupted rejection sampling: after a loop do { draw X; V = isValid(X) / sampler->sample(X) } while (!V && !ptc) the '
+                     'loop can end with V false because the termination condition fired; every later use of X in the function (storing it '
+                     'in a container, cloning it into a milestone, returning it) lies on paths where V is known to be true '
+                     '(path-sensitive over the CFG, V forked at its assignment)')
+    n = 0
+    for f in F.functions:
+        if not f.body or not f.file.startswith(facts.SRC) or not any('PlannerTerminationCondition' in (p.get('ty') or '') for p in f.params):
+            continue
+        for lp in [x for x in f.walk() if x['k'] in ('WhileStmt', 'DoStmt') and x.get('cond')]:
+            negs = [key(f, u['ch'][0]) for u in f.walk(lp['cond']) if u['k'] == 'UnaryOperator' and u.get('op') == '!' and key(f, u['ch'][0])]
+            hit = None
+            for y in f.walk(lp['body']):
+                if y['k'] == 'BinaryOperator' and y.get('op') == '=' and key(f, y['ch'][0]) in negs:
+                    c = f.strip(y['ch'][1])
+                    if c is not None and (c.get('callee') or '').split('::')[-1] in ('isValid', 'sample', 'sampleValid') and args(f, c):
+                        xs = [z for z in f.walk(args(f, c)[0]) if z['k'] == 'DeclRefExpr' and z.get('dk') in ('Local', 'Parm')]
+                        if xs:
+                            hit = (key(f, y['ch'][0]), '%s#%d' % (xs[0]['name'], xs[0]['did']))
+            if not hit:
+                continue
+            vkey, xkey = hit
+            inside = {z['id'] for z in f.walk(lp['id'])}
+            end = max(f.line(z) for z in f.walk(lp['id']))
+            uses = set()
+            for z in f.walk():
+                if z['id'] in inside or f.line(z) <= end:
+                    continue
+                if z['k'] == 'ReturnStmt' or (z.get('callee') and (z['callee'].split('::')[-1] not in ('freeState', 'log'))):
+                    sub = z['ch'] if z['k'] == 'ReturnStmt' else args(f, z) + (z['ch'][:1] if z['k'] == 'CXXMemberCallExpr' else [])
+                    if any(w['k'] == 'DeclRefExpr' and '%s#%d' % (w.get('name'), w.get('did')) == xkey for a in sub for w in f.walk(a)):
+                        uses.add(z['id'])
+            if not uses:
+                continue
+            n += 1
+            cl = RejectClient(vkey, uses, inside)
+            paths.run_function(f, cl, F)
+            rep.add('R03p', f.name, 'reject-loop#%d[%s]' % (f.line(lp), nofp(xkey)), not cl.bad, f.where(lp),
+                    'every later use of %s is on paths with %s true (%d uses)' % (nofp(xkey), nofp(vkey), len(cl.seen)) if not cl.bad else
+                    '%s is used at line %d on a path on which %s may be false (the loop was left because the termination condition fired): an '
+                    'unvalidated state is admitted' % (nofp(xkey), f.line(f.nodes[sorted(cl.bad)[0]]), nofp(vkey)),
+                    cl.bad[sorted(cl.bad)[0]] if cl.bad else None)
+    rep.require_count('R03p', 'interruptible rejection loops', n, 5)
+
+
 def run(rep):
     units = P.geometric_units() + P.control_units() + P.multilevel_units() + P.base_units()
     F = facts.load_units(units)
@@ -882,6 +953,7 @@ def run(rep):
     r03l(rep, F)
     r03o(rep, F)
     r03m(rep, F)
+    r03p(rep, F)
     r03n(rep, F, solves)
     # the RRTConnect side-flag invariant decides which branch is reported as the approximate solution of an interrupted solve
     from rules import c01
